@@ -292,16 +292,18 @@ func (b *circuitBreakerBase) fromClosedWordToOpen(closedWord int32, snapshot int
 // fromOpenToHalfOpen updates circuit breaker state machine from open to half-open.
 // Return true only if current goroutine successfully accomplished the transformation.
 func (b *circuitBreakerBase) fromOpenToHalfOpen(openWord int32, ctx *base.EntryContext, deadline uint64) bool {
+	// The deadline the caller examined has arrived: it is used up, whoever takes the breaker to half-open. It
+	// must not outlive the open period: the deadline only ever moves forward (see updateNextRetryTimestamp),
+	// and after the clock was set back a LATER open period found the old deadline ahead of its own and lasted
+	// until then instead of its retry timeout. It is cleared BEFORE the transition: cleared afterwards, a
+	// straggler that re-opened the breaker in between (behind a clock set back: its own deadline was not ahead
+	// of the old one and the old one stayed) had the deadline of its open period wiped, and the next request
+	// was admitted at once.
+	atomic.CompareAndSwapUint64(&b.nextRetryTimestampMs, deadline, 0)
 	if b.state.casWord(openWord, HalfOpen) {
 		for _, listener := range stateChangeListeners {
 			listener.OnTransformToHalfOpen(Open, *b.rule)
 		}
-		// The deadline of the open period that ends here is used up. It must not outlive the period: the
-		// deadline only ever moves forward (see updateNextRetryTimestamp), and after the clock was set back
-		// a LATER open period found the old deadline ahead of its own and lasted until then instead of its
-		// retry timeout. (Cleared only if it is still the value examined: a failed probe may already have
-		// re-opened the breaker and published a new one.)
-		atomic.CompareAndSwapUint64(&b.nextRetryTimestampMs, deadline, 0)
 
 		entry := ctx.Entry()
 		if entry == nil {
